@@ -94,6 +94,17 @@ func (r *Run) Case(key string, nontrivial bool) {
 	}
 }
 
+// Begin records the input that is about to be evaluated in <out>/inflight.json, so that a crash of the whole process
+// that recover() cannot stop (stack overflow, fatal runtime errors, a kill after a hang) is reported with the input that
+// was running. The file is overwritten by the next Begin and removed by Close.
+func (r *Run) Begin(input any) {
+	b, err := json.Marshal(input)
+	if err != nil {
+		return
+	}
+	_ = os.WriteFile(filepath.Join(r.OutDir, "inflight.json"), b, 0o644)
+}
+
 func (r *Run) Count(bucket string)        { r.Hist[bucket]++ }
 func (r *Run) CountN(bucket string, n int) { r.Hist[bucket] += n }
 
@@ -133,6 +144,7 @@ type Summary struct {
 }
 
 func (r *Run) Close() {
+	_ = os.Remove(filepath.Join(r.OutDir, "inflight.json"))
 	r.ops.Flush()
 	r.impl.Flush()
 	r.fo.Close()
